@@ -445,7 +445,7 @@ func (m *Model) evalPureHook(fn *ssa.Function, args []constant.Value, resolve fu
 					return nil, false
 				}
 				env[x] = constant.MakeBool(!constant.BoolVal(v))
-			case *ssa.FieldAddr:
+			case *ssa.FieldAddr, *ssa.Alloc, *ssa.Store:
 			case *ssa.Call:
 				if resolve != nil {
 					if v, ok := resolve(x); ok {
